@@ -290,6 +290,24 @@ Definition load_post (e : exec) (me a : nat) (o : ord) : (exec * N) + (exec * pa
   | _, _ => inr (e, PanicModel 16)
   end.
 
+(* the std::sync::RwLock inside sync::RwLock: its guards are the (multi)set of
+   guard entries of all threads; rt::RwLock keeps readers as a set, so the two
+   can disagree after a recursive read, and the wrapper's try_read / try_write
+   `expect("loom::RwLock state corrupt")` then fails *)
+Definition any_guard (e : exec) (k : gkind) (r : nat) : bool :=
+  existsb (fun t => existsb (fun g => gkind_eqb (fst g) k && Nat.eqb (snd g) r) (t_guards t)) (e_threads e).
+
+(* the body of a thread that was handed a waker (Notify n, Arc k) when it was
+   spawned: its first wake() uses it, otherwise it is dropped with the closure *)
+Fixpoint subst_waker (n k : nat) (used : bool) (c : list micro) : list micro :=
+  match c with
+  | [] => []
+  | MWakeMine :: t => if used then MWakeMine :: subst_waker n k used t
+                      else MWakeMineW n k :: subst_waker n k true t
+  | MDropMyWaker :: t => (if used then MDropMyWaker else MDropWakerW n k) :: subst_waker n k true t
+  | m :: t => m :: subst_waker n k used t
+  end.
+
 Definition log_poll (e : exec) (me : nat) : exec :=
   match get_thread e me with
   | Some t => ex_set_log e (LPoll (t_body t) (t_pc t) :: e_log e)
@@ -493,12 +511,14 @@ Definition exec_micro (e : exec) (me : nat) (m : micro) : mres :=
 
   | MReadPost r try =>
       let '(e, ok) := post_acquire_read e me r in
-      if try then MOk (log_op (if ok then push_guard e me GRead r else e) me (RBool ok))
+      if ok && any_guard e GWrite r then MFail e PanicRwCorrupt
+      else if try then MOk (log_op (if ok then push_guard e me GRead r else e) me (RBool ok))
       else if ok then MOk (log_op (push_guard e me GRead r) me RUnit) else MFail e PanicExpectRead
 
   | MWritePost r try =>
       let '(e, ok) := post_acquire_write e me r in
-      if try then MOk (log_op (if ok then push_guard e me GWrite r else e) me (RBool ok))
+      if ok && (any_guard e GRead r || any_guard e GWrite r) then MFail e PanicRwCorrupt
+      else if try then MOk (log_op (if ok then push_guard e me GWrite r else e) me (RBool ok))
       else if ok then MOk (log_op (push_guard e me GWrite r) me RUnit) else MFail e PanicExpectWrite
 
   | MUnread r =>
@@ -942,8 +962,71 @@ Definition exec_micro (e : exec) (me : nat) (m : micro) : mres :=
       | None => MFail e (PanicModel 24)
       | Some t =>
           let keys := filter (fun k => existsb (Nat.eqb k) (t_tls t)) (seq 0 8) in
-          MOk (ex_set_log e (rev (map (fun k => LDropTls k (t_body t)) keys) ++ e_log e))
+          (* all values are taken out of the map first (tombstones), then destroyed;
+             the destructor of thread-local 2 uses thread-local 0 of this thread:
+             AccessError if this thread had initialised it. (If it had not, the
+             access would initialise it now and the value would outlive the thread:
+             not modelled, such programs are rejected.) *)
+          let has0 := existsb (Nat.eqb 0) (t_tls t) in
+          if existsb (Nat.eqb 2) (t_tls t) && negb has0 then MFail e (PanicModel 31)
+          else
+            let lines := flat_map (fun k => (if Nat.eqb k 2 then [LTlsAccess k (t_body t) false] else [])
+                                            ++ [LDropTls k (t_body t)]) keys in
+            MOk (ex_set_log e (rev lines ++ e_log e))
       end
+
+  | MBlockOnS a v b1 b2 =>
+      (* future::block_on, as MBlockOn *)
+      let n := length (e_objects e) in
+      let k := S n in
+      let e := ex_set_objects e (e_objects e ++
+                 [ONotify (mkNotify true false false false None vv_new);
+                  OArc (mkArc 1 vv_new (repeat None MAX_THREADS) None (repeat None MAX_THREADS))]) in
+      MOk (push_cont e me [MBsPoll a v b1 b2 n k true])
+
+  | MBsPoll a v b1 b2 n k first =>
+      MOk (push_cont (log_poll e me) me [MBranch a ALoad BNever; MBsLoad a v b1 b2 n k first])
+
+  | MBsLoad a v b1 b2 n k first =>
+      match load_post e me a Acquire with
+      | inr (e, p) => MFail e p
+      | inl (e, x) =>
+          if N.eqb x v then MOk (push_cont e me [MBoDone n k])
+          else
+            (* Pending. The first time, each waking thread is spawned with a clone of the waker *)
+            let sp b := match b with
+                        | 0 => []
+                        | _ => [MBranch k ARefInc BNever; MArcIncRaw k; MSpawnW b n k]
+                        end in
+            MOk (push_cont e me ((if first then sp b1 ++ sp b2 else [])
+                                 ++ [MNotifyWait1 n; MBsPoll a v b1 b2 n k false]))
+      end
+
+  | MSpawnW b n k =>
+      (* thread::spawn from inside the poll; as MSpawn, no result line *)
+      let nidx := length (e_objects e) in
+      let e := ex_set_objects e (e_objects e ++ [ONotify (mkNotify false false true false None vv_new)]) in
+      if negb (Nat.ltb (length (e_threads e)) (e_max_threads e)) then MFail e PanicMaxThreads
+      else
+        let tid := length (e_threads e) in
+        let pc := caus_of e me in
+        let pd := match get_thread e me with Some t => t_dpor t | None => vv_new end in
+        let body := subst_waker n k false (nth b (e_bodies e) []) in
+        let nt := thread_new b body in
+        let nt := th_set_dpor (th_set_caus nt (vv_inc (vv_join (t_caus nt) pc) tid)) (vv_join (t_dpor nt) pd) in
+        let e := ex_set_threads e (e_threads e ++ [nt]) in
+        let e := causality_inc e me in
+        MOk (ex_set_spawned e (list_set (e_spawned e) b (Some (tid, nidx))))
+
+  | MWakeMine => MOk (log_op e me (RVal 0))
+
+  | MWakeMineW n k =>
+      MOk (push_cont e me [MBranch n AOpaque BNever; MNotifyPost n;
+                           MBranch k ARefDec BNever; MArcDecRaw k; MLog (RVal 1)])
+
+  | MDropMyWaker => MOk e
+
+  | MDropWakerW n k => MOk (push_cont e me [MBranch k ARefDec BNever; MArcDecRaw k])
 
   | MTerminate =>
       fst (schedule (upd_thread e me (fun t => th_set_op (th_set_state t Terminated) None)))
